@@ -358,7 +358,8 @@ pub fn run(args: &[String]) -> Value {
         let mut twins = vec![];
         for case in &cases {
             let grouped = case["group"].as_str().map(|g| !g.is_empty()).unwrap_or(false);
-            if grouped || case["negative"].as_bool().unwrap_or(false) || case["notwin"].as_bool().unwrap_or(false) || !has_hide(&case["prog"]) {
+            let negative = case["negative"].as_bool().unwrap_or(false) && !case["twin"].as_bool().unwrap_or(false);
+            if grouped || negative || case["notwin"].as_bool().unwrap_or(false) || !has_hide(&case["prog"]) {
                 continue;
             }
             let mut t = case.clone();
